@@ -198,8 +198,14 @@ def pref_hooks(prog: Program) -> Dict[str, object]:
     ucls = unit_class(prog)
     call = prog.func(M_UNIT, 'Unit.__call__')
 
+    members = unit_members(prog)
+    dims = dimension_classes(prog)
+
     def classattr(ev, owner, attr):
-        return SymObj(f'PreferredUnits.{attr}', ucls)
+        # the slot holds some unit of its own dimension: range tests on it (0 <= unit < 10) are decided by that
+        dim = dimension_of_unit(prog, slots[attr])
+        dom = tuple(sorted(members[u] for u in declared_units(prog, dims[dim]).values())) if dim in dims else None
+        return SymObj(f'PreferredUnits.{attr}', ucls, dom)
 
     def symcall(ev, fv, args, kwargs, st):
         if not fv.path.startswith('PreferredUnits.') or fv.path.count('.') != 1:
